@@ -35,7 +35,19 @@
    Guard = "code" is the mechanism as found.  The other values are mutant
    controls of the specification (EventDriven_control*.cfg, EXPECTED to fail):
      "no_reset"    the dispatch does not reset the guard
-     "any_pending" any pending wakeup suppresses a request, even a later one  *)
+     "any_pending" any pending wakeup suppresses a request, even a later one
+     "deaf_in_run" a notification that arrives while the processor is running
+                   is dropped ("a running component is awake anyway")
+
+   While the processor runs it may not only ask for wakeups: a message may be
+   delivered to one of its ports, or one of its ports may become free, at that
+   very moment (a loop-back caused by the processor itself, or another handler
+   of the same instant under a parallel engine).  Such a notification raises
+   the same obligation as any other: a run at the current instant AFTER the
+   current run (the dispatch has reset the guard before the processor started,
+   so the wakeup it asks for is a fresh one).  In the operation sequence of a
+   dispatch the codes NRecv / NFree stand for these notifications, the numbers
+   0..MaxD for wake requests.                                                *)
 EXTENDS EventDrivenAbs, Sequences, FiniteSets, TLC, Json
 
 CONSTANTS MaxT,    \* clock ticks move `now` up to MaxT
@@ -73,9 +85,6 @@ Suppressed(m, t) == IF Guard = "any_pending" THEN m.pending # NoWake
 Request(m, t) == IF Suppressed(m, t)
                  THEN [m EXCEPT !.due = Raise(@, t)]
                  ELSE [pending |-> t, queue |-> [m.queue EXCEPT ![t] = @ + 1], due |-> Raise(m.due, t)]
-RECURSIVE Requests(_, _)
-Requests(m, ts) == IF ts = <<>> THEN m ELSE Requests(Request(m, Head(ts)), Tail(ts))
-
 Cur == [pending |-> pending, queue |-> queue, due |-> due]
 Become(m) == pending' = m.pending /\ queue' = m.queue /\ due' = m.due
 
@@ -89,17 +98,30 @@ Notify(kind) == /\ LET m == Request(Cur, now) IN QSize(m.queue) <= MaxEv /\ Beco
                 /\ UNCHANGED now
                 /\ last' = [op |-> kind, d |-> 0, at |-> now, reqs |-> <<>>]
 
+\* what can happen while the processor runs: a wake request now + d, or a
+\* notification (receive / port free)
+NRecv == 100
+NFree == 101
+Notes == {NRecv, NFree}
+InOps == (0..MaxD) \cup Notes
+OpTime(tau, x) == IF x \in Notes THEN tau ELSE tau + x
+InRun(m, tau, x) == IF x \in Notes /\ Guard = "deaf_in_run"
+                    THEN [m EXCEPT !.due = Raise(@, tau)]
+                    ELSE Request(m, OpTime(tau, x))
+RECURSIVE InRuns(_, _, _)
+InRuns(m, tau, xs) == IF xs = <<>> THEN m ELSE InRuns(InRun(m, tau, Head(xs)), tau, Tail(xs))
+
 \* the engine dispatches the earliest queued wakeup; the processor runs at that
-\* time and may ask for further wakeups (deltas ds) while it runs
-DeltaSeqs == UNION {[1..k -> 0..MaxD] : k \in 0..MaxReq}
+\* time; ds is what happens while it runs
+DeltaSeqs == UNION {[1..k -> InOps] : k \in 0..MaxReq}
 Dispatch(ds) ==
   /\ QSize(queue) > 0
   /\ LET tau == Earliest(queue)
          m0  == [pending |-> IF Guard = "no_reset" THEN pending ELSE NoWake,
                  queue   |-> [queue EXCEPT ![tau] = @ - 1],
                  due     |-> Discharge(due, tau)]
-         m1  == Requests(m0, [i \in 1..Len(ds) |-> tau + ds[i]])
-     IN /\ \A i \in 1..Len(ds) : tau + ds[i] <= TMax
+         m1  == InRuns(m0, tau, ds)
+     IN /\ \A i \in 1..Len(ds) : OpTime(tau, ds[i]) <= TMax
         /\ QSize(m1.queue) <= MaxEv
         /\ now' = tau
         /\ Become(m1)
